@@ -10,6 +10,8 @@ LEVEL_TEXT = ('Static effect analysis over the resolved call graph: purity of th
 def run(ctx):
     rule_F1(ctx)
     rule_F2(ctx)
+    from ..rowfacts import rule_M9
+    rule_M9(ctx)      # a pool job owns the bound it fills (no shared mutable state between jobs)
     from ..effects import rule_F2p
     rule_F2p(ctx)
     rule_F3(ctx)
